@@ -13,6 +13,9 @@ from collections import Counter
 
 HOME = os.environ.get("VERIF_HOME") or os.path.dirname(os.path.dirname(os.path.abspath(__file__)))
 KNOWN_FILE = os.path.join(HOME, "known_findings.json")
+# sensitivity experiments against a scratch tree never touch the committed evidence / replays
+_SCRATCH = os.path.realpath(os.environ.get("VERIF_REPO_ROOT", "/repo")) != "/repo"
+OUT = "/tmp/mut/out" if _SCRATCH else HOME
 MAX_SAMPLES = 6
 
 
@@ -236,10 +239,10 @@ def run_sharded(ctx, modname, fname, nshards):
 # ---- finishing ----------------------------------------------------------------------------
 
 def write_replay(pid, v):
-    os.makedirs(os.path.join(HOME, "replays"), exist_ok=True)
+    os.makedirs(os.path.join(OUT, "replays"), exist_ok=True)
     body = {"property": pid, "signature": v["signature"], "message": v["message"], "case": v["spec"]}
     name = f"{pid}-{digest([v['signature'], v['spec']])}.json"
-    path = os.path.join(HOME, "replays", name)
+    path = os.path.join(OUT, "replays", name)
     with open(path, "w") as f:
         json.dump(body, f, indent=1, sort_keys=True)
     return os.path.join("replays", name)
@@ -270,8 +273,8 @@ def finish(ctx, level, rule, t0, assumptions=(), coverage_extra=None):
         "wall_s": round(time.time() - t0, 2),
         "violations": len(ctx.violations),
     }
-    os.makedirs(os.path.join(HOME, "evidence"), exist_ok=True)
-    with open(os.path.join(HOME, "evidence", ctx.pid + ".json"), "w") as f:
+    os.makedirs(os.path.join(OUT, "evidence"), exist_ok=True)
+    with open(os.path.join(OUT, "evidence", ctx.pid + ".json"), "w") as f:
         json.dump(ev, f, indent=1, sort_keys=True)
     for sig, entry in ctx.known.items():
         print(f"KNOWN-FINDING: property={ctx.pid} {entry['what_fails']} [signature={sig} seen={ctx.known_hits.get(sig, 0)}]")
